@@ -288,20 +288,16 @@ pub(crate) fn manifests_missing_for_desired(
             continue;
         };
 
-        let path = if preferred.exists() {
-            preferred
-        } else {
-            let legacy = legacy_manifest_path(&root.root);
-            if !legacy.exists() {
-                return true;
-            }
-            legacy
-        };
+        // A root that holds desired files gets a per-target manifest; a legacy-named one, even an
+        // exact one, is migrated by the next deploy (as the legacy-manifest warning promises).
+        if !preferred.exists() {
+            return true;
+        }
+        let path = preferred;
 
-        // Avoid cross-target collisions: only treat legacy manifests as present when they belong
-        // to the expected target. A manifest that does not list exactly this root's desired files
-        // (e.g. left behind by an interrupted apply) counts as missing too, so that a re-run
-        // rewrites it even when no file needs to change.
+        // A manifest that is unusable for this target, or that does not list exactly this root's
+        // desired files (e.g. left behind by an interrupted apply), counts as missing too, so that
+        // a re-run rewrites it even when no file needs to change.
         let (manifest, _warnings) = read_target_manifest_soft(&path, &root.target);
         let Some(manifest) = manifest else {
             return true;
